@@ -18,7 +18,7 @@ func vpAbs(x int) int {
 
 // vpRUP: is clause c derivable from clauses by reverse unit propagation?
 func vpRUP(clauses [][]int, n int, c []int) bool {
-	val := make([]int, n+1) // 0 unassigned, 1 true, -1 false
+	val := make([]int, n+1)   // 0 unassigned, 1 true, -1 false
 	set := func(l int) bool { // make l true; false on contradiction
 		v := vpAbs(l)
 		want := 1
